@@ -53,6 +53,10 @@ func runC13(r *Report) {
 	checkZeroExpiryGuard(r, "R-C13-2", memPkg, "StorageItem", "Expiration")
 	r.Floor("R-C13-2", 12, "expiry comparisons in the memory backend")
 
+	if n := checkValueExpiryTogether(r, "R-C13-2"); n < 2 {
+		r.Fail("R-C13-2", 0, fmt.Sprintf("only %d value writes in ttl-taking memory operations found (Set, SetNX, CompareAndSwap confirmed by hand)", n), memPkg, "floor:value-writes")
+	}
+
 	// ---- R-C13-5 expired entries are absent / expiry-driven deletes re-validate ---
 	for _, f := range r.P.FuncsIn(memPkg) {
 		checkExpiredAbsent(r, f)
@@ -631,4 +635,64 @@ func checkZeroExpiryGuard(r *Report, rule, pkg, typ, field string) {
 				r.P.FuncName(f), "clock-compare:"+c.Name)
 		})
 	}
+}
+
+// checkValueExpiryTogether: in the memory backend's functions that take a ttl, an item's Value
+// is never written without its Expiration (same item) being written on the same path: an
+// overwrite that keeps the old deadline makes a re-registered record vanish early, one that
+// keeps "never" makes it immortal.
+func checkValueExpiryTogether(r *Report, rule string) int {
+	n := 0
+	for _, f := range r.P.FuncsIn(memPkg) {
+		hasTTL := false
+		for _, p := range f.Params {
+			if p.Name() == "ttl" && p.Type().String() == "time.Duration" {
+				hasTTL = true
+			}
+		}
+		if !hasTTL || f.Parent() != nil {
+			continue
+		}
+		Instrs(f, func(in ssa.Instruction) {
+			st, ok := in.(*ssa.Store)
+			if !ok {
+				return
+			}
+			t, fld, base, ok := FieldOf(st.Addr)
+			if !ok || t != "StorageItem" || fld != "Value" {
+				return
+			}
+			n++
+			// a store to Expiration of the same item that dominates this store, or that every path
+			// from this store to a return passes
+			isExp := func(x ssa.Instruction) bool {
+				s2, ok := x.(*ssa.Store)
+				if !ok {
+					return false
+				}
+				t2, f2, b2, ok := FieldOf(s2.Addr)
+				return ok && t2 == "StorageItem" && f2 == "Expiration" && (b2 == base || sameItem(b2, base))
+			}
+			good := false
+			Instrs(f, func(x ssa.Instruction) {
+				if isExp(x) && Before(x, in) {
+					good = true
+				}
+			})
+			if !good {
+				hits := WalkFrom(nil, in, func(x ssa.Instruction) int {
+					if isExp(x) {
+						return Stop
+					}
+					if _, isRet := x.(*ssa.Return); isRet {
+						return Hit
+					}
+					return Cont
+				}, nil)
+				good = len(hits) == 0
+			}
+			r.Ob(rule, st.Pos(), good, "a write of an item's value in a ttl-taking operation also writes that item's expiry on the same path (an overwrite installs the new deadline)", r.P.FuncName(f), "value-and-expiry-together")
+		})
+	}
+	return n
 }
